@@ -71,6 +71,12 @@ Definition steps_sink (c : cfg) (script : list inmsg) : list (list Z) :=
 Definition steps_src (input : list val) (script : list inmsg) : list (list Z) :=
   [] :: run_steps src_recv (fun _ => []) true input script.
 
+(* the same without the ledger snapshot (used when the implementation's private fields are not readable) *)
+Definition steps_k_ns (k : kind) (script : list inmsg) : list (list Z) :=
+  concat (map enc_umsg (kwire k)) :: run_steps (krecv k) (fun _ => []) true (kinit k) script.
+Definition steps_sink_ns (c : cfg) (script : list inmsg) : list (list Z) :=
+  [20; c_init c] :: run_steps (sink_recv c) (fun _ => []) true (sink_init c) script.
+
 (* ---- black-box pipelines: is the observed outcome one the list semantics allows? ---- *)
 Fixpoint count_val (x : val) (l : list val) : nat :=
   match l with [] => O | y :: r => (if val_eqb x y then 1 else 0) + count_val x r end.
